@@ -15,6 +15,7 @@ inductive Out (N : Type) where
   | arrayNormals (pts : List Pt) (normals : List N)
   /-- `PointCloud` whose vertex container holds `verts`; `normalsAttr` = data of the dense attribute "normals" -/
   | cloud (verts : List Pt) (normalsAttr : Option (List N))
+deriving DecidableEq
 
 def Out.points {N} : Out N → List Pt
   | .array p => p
